@@ -1,5 +1,6 @@
 import CacheVerif.Props.C01
 import CacheVerif.Props.C11
+import CacheVerif.Proofs.ProtoData
 /-!
 # C07 — Range/Items visit each qualifying entry once, never a phantom or expired one
 
@@ -101,5 +102,29 @@ theorem C07_table_range (var : Model.Table.Variant) (hv : Proofs.TableRefine.Goo
 /-! ### Non-vacuity -/
 example : (Cache.step C01.exS (.range fun k _ => k != "live")).2.out = .visits [("live", 1)] := by decide
 example : (Cache.step C01.exS (.range fun _ _ => true)).2.out = .visits [("live", 1), ("forever", 3)] := by decide
+
+/-! ### concurrent traversals (M4a, all schedules, re-entrant visitors included) -/
+section conc
+open Model.Proto Proofs.ProtoData
+variable {K : Type} {V : Type} [DecidableEq K] (p : Params K)
+
+/-- **at most once per key**: at every point of a traversal the keys visited so far plus the keys of the bucket
+snapshot in hand are pairwise distinct (a key has one root bucket per table generation, the snapshot is taken
+under that bucket's lock, and a generation holds no key twice) — also while other threads store, delete, grow,
+shrink or clear, and while the visitor itself calls back into the container -/
+theorem C07_at_most_once (hmin : 0 < p.minLen) (s : Model.Proto.St K V) (h : Reach p s) (u : Model.Proto.Tid)
+    (hpc : (s.l u).pc = .rgVisit ∨ (s.l u).pc = .rgLock ∨ (s.l u).pc = .rgCopy ∨ (s.l u).pc = .rgUnlock) :
+    (AMap.keys ((s.l u).visited ++ (s.l u).snap)).Nodup :=
+  (range_keys_nodup p hmin s h u hpc).1
+
+/-- **only real entries**: a bucket snapshot is exactly the content of that bucket of the traversed generation at
+the instant it is taken (under the bucket lock) -/
+theorem C07_snapshot_exact (s : Model.Proto.St K V) (h : Reach p s) (t : Model.Proto.Tid) (c : Choice K V)
+    (g' : Model.Proto.G K V) (l' : L K V) (hpc : (s.l t).pc = .rgCopy) (hs : tstep p t s.g (s.l t) c = some (g', l')) :
+    g' = s.g ∧ l'.snap = bucketEntries p s.g (s.l t).tbl (s.l t).ri ∧ l'.visited = (s.l t).visited :=
+  let r := rgCopy_snapshot p s h t c g' l' hpc hs
+  ⟨r.1, r.2.1, r.2.2.1⟩
+
+end conc
 
 end Props.C07
